@@ -630,6 +630,19 @@ func Origins(v ssa.Value) []ssa.Value {
 					return
 				}
 			}
+			// the call of a callback parameter of an inlined helper: what the closure bound to it returns
+			if cb := CallbackTarget(x); cb != nil && x.Call.Signature().Results().Len() == 1 {
+				n := 0
+				for _, ret := range Returns(cb) {
+					if len(ret.Results) == 1 {
+						n++
+						rec(ret.Results[0])
+					}
+				}
+				if n > 0 {
+					return
+				}
+			}
 			out = append(out, v)
 		case *ssa.Phi:
 			for _, e := range x.Edges {
